@@ -63,6 +63,7 @@ type Run struct {
 	distinct    map[string]map[string]struct{}
 	Exhaustive  bool
 	caps        []string
+	ReplayKey   string // replay mode: only this case signature is of interest
 }
 
 func NewRun(prop, tier, level, engine string) *Run {
@@ -284,16 +285,30 @@ func (r *Run) Finish() int {
 		"engine": r.Engine,
 	}
 	evdir := filepath.Join(Root(), "evidence")
+	rdir := filepath.Join(Root(), "replays", r.Prop)
+	if r.ReplayKey != "" { // replay mode never touches the committed evidence or replay files
+		evdir = filepath.Join(WorkDir(), "replay-evidence")
+		rdir = filepath.Join(WorkDir(), "replay-out", r.Prop)
+	}
 	_ = os.MkdirAll(evdir, 0o755)
 	if err := writeJSON(filepath.Join(evdir, r.Prop+".json"), ev); err != nil {
 		fmt.Fprintln(os.Stderr, "cannot write evidence:", err)
 		return 2
 	}
+	if r.ReplayKey != "" {
+		for _, v := range r.viol {
+			if v.Key == r.ReplayKey {
+				fmt.Printf("REPRODUCED property=%s key=%s :: %s\n", r.Prop, v.Key, v.What)
+				return 1
+			}
+		}
+		fmt.Printf("NOT-REPRODUCED property=%s key=%s (the check no longer reports this case signature)\n", r.Prop, r.ReplayKey)
+		return 0
+	}
 	if len(r.viol) == 0 {
 		fmt.Printf("OK property=%s tier=%s wall=%.1fs exhaustive=%v\n", r.Prop, r.Tier, time.Since(r.start).Seconds(), r.Exhaustive)
 		return 0
 	}
-	rdir := filepath.Join(Root(), "replays", r.Prop)
 	_ = os.MkdirAll(rdir, 0o755)
 	for i, v := range r.viol {
 		p := filepath.Join(rdir, fmt.Sprintf("%s-%03d.json", r.Tier, i))
@@ -400,6 +415,33 @@ func Main(id, level, engine string, run func(*Run)) int {
 			return 2
 		}
 		return WorkerHook(os.Args[2:])
+	}
+	if len(os.Args) >= 3 && os.Args[1] == "replay" {
+		// replay <file>: re-run the exploration that produced the record (same tier, same seed) and
+		// report whether the same case signature is observed again
+		bz, err := os.ReadFile(os.Args[2])
+		if err != nil {
+			fmt.Fprintln(os.Stderr, err)
+			return 2
+		}
+		var rec struct {
+			Key  string `json:"key"`
+			Seed int64  `json:"seed"`
+		}
+		if err := json.Unmarshal(bz, &rec); err != nil || rec.Key == "" {
+			fmt.Fprintln(os.Stderr, "unreadable replay file")
+			return 2
+		}
+		tier := "quick"
+		if strings.Contains(filepath.Base(os.Args[2]), "thorough") {
+			tier = "thorough"
+		}
+		os.Setenv("VERIF_SEED", strconv.FormatInt(rec.Seed, 10))
+		r := NewRun(id, tier, level, engine)
+		r.ReplayKey = rec.Key
+		r.findings = nil
+		run(r)
+		return r.Finish()
 	}
 	if len(os.Args) < 2 || (os.Args[1] != "quick" && os.Args[1] != "thorough") {
 		fmt.Fprintf(os.Stderr, "usage: %s quick|thorough\n", os.Args[0])
